@@ -133,21 +133,33 @@ JudgeClient(k, a) ==
   /\ Clause1("soapclient_total", a.exc = "")
   /\ a.exc = "" => Clause1("soapclient_scheme_follows_context", a.scheme = ClientScheme(k) /\ a.same_ctx)
 
+\* a = [exc, contacts : Seq([what, tls, ctx, scheme]), attempts]: every connection the provider opened (or tried to open)
+\* towards the subscriber's sinks while a report and the SubscriptionEnd were due
+JudgeSink(k, a) ==
+  /\ Clause1("sink_case_total", a.exc = "")
+  /\ a.exc = "" =>
+       /\ Clause1("SANITY:sink_was_contacted", a.attempts >= 1)
+       /\ Clause1("no_plaintext_to_subscriber_sink:provider",
+                  \A i \in 1..Len(a.contacts) : SinkContactOK(a.contacts[i]))
+
 (* ------------------------------------------------------------------ one state per record *)
 CaseOf(j) ==
   CASE j.kind = "cfg" -> [kind |-> "cfg", ptls |-> j.ptls, ctls |-> j.ctls, psrv |-> j.psrv, csrv |-> j.csrv,
                           alt |-> j.alt, peer |-> j.peer, mgr |-> j.mgr]
     [] j.kind = "cert" -> [kind |-> "cert", entry |-> j.entry, ca |-> j.ca, cyphers |-> j.cyphers]
     [] j.kind = "client" -> [kind |-> "client", cls |-> j.cls, ctx |-> j.ctx]
+    [] j.kind = "sink" -> [kind |-> "sink", mgr |-> j.mgr, notify |-> j.notify, endto |-> j.endto]
 
 InDomain(c) == CASE c.kind = "cfg" -> c \in Configs
                  [] c.kind = "cert" -> c \in CertCases
                  [] c.kind = "client" -> c \in ClientCases
+                 [] c.kind = "sink" -> c \in SinkCases
 
 JudgeFirst(c, rec) ==
   /\ Clause1("SANITY:case_in_domain", InDomain(c))
   /\ InDomain(c) => CASE c.kind = "cert" -> JudgeCert(c, rec.a)
                       [] c.kind = "client" -> JudgeClient(c, rec.a)
+                      [] c.kind = "sink" -> JudgeSink(c, rec.a)
                       [] OTHER -> TRUE
 
 TraceInit == /\ tid \in 1..Len(Traces)
